@@ -296,6 +296,19 @@ structure SeqParams where
   upward : Bool
 deriving Repr
 
+/-- The loop increment computed from the parsed third element `n` (1 when absent):
+    `if n < 0 { n = -n }; if n != 0 { incr = n }; if !upward { incr = -incr }` in Int64. -/
+def goIncr (n : Int) (upward : Bool) : Int :=
+  let n := if n < 0 then wrap64 (-n) else n
+  let incr := if n ≠ 0 then n else 1
+  if !upward then wrap64 (-incr) else incr
+
+/-- The parsed third element of a sequence (`n, _ := strconv.ParseInt(…)`), 1 when absent. -/
+def seqRaw (elems : List Word) : Int :=
+  match elems with
+  | _ :: _ :: e2 :: _ => (parseInt (litOf e2)).1
+  | _ => 1
+
 /-- `none`: the Go code panics (index out of range on `br.Elems[1]`, `fromLit[0]`, `toLit[0]`). -/
 def seqParams (elems : List Word) : Option SeqParams :=
   match elems with
@@ -315,14 +328,8 @@ def seqParams (elems : List Word) : Option SeqParams :=
       let width := if !chars && (hasLeadingZeros fromLit || hasLeadingZeros toLit)
         then max fromLit.length toLit.length else 0
       let upward := decide (fr ≤ to)
-      let incr : Int :=
-        match more with
-        | [] => 1
-        | e2 :: _ =>
-          let n := (parseInt (litOf e2)).1
-          let n := if n < 0 then wrap64 (-n) else n
-          if n ≠ 0 then n else 1
-      let incr := if !upward then wrap64 (-incr) else incr
+      let raw : Int := seqRaw (e0 :: e1 :: more)
+      let incr := goIncr raw upward
       some { chars := chars, «from» := fr, to := to, width := width, incr := incr, upward := upward }
   | _ => none
 
@@ -353,20 +360,11 @@ def fmtSeq (sp : SeqParams) (n : Int) : Bytes :=
 def seqCond (sp : SeqParams) (n : Int) : Bool :=
   (sp.upward && decide (n ≤ sp.to)) || (!sp.upward && decide (n ≥ sp.to))
 
-/-- `for n := from; cond; n += incr { … expand(&next) … }` with `budget` yields left. -/
-def seqLoop (f : Nat → Word → Option (List Word)) (sp : SeqParams) (rest : List Part) :
-    Nat → Int → Nat → Option (List Word)
-  | 0, _, budget => if budget = 0 then some [] else none
-  | iters + 1, n, budget =>
-    if budget = 0 then some []
-    else if seqCond sp n then
-      match f budget (.lit (fmtSeq sp n) :: rest) with
-      | none => none
-      | some r =>
-        match seqLoop f sp rest iters (wrap64 (n + sp.incr)) (budget - r.length) with
-        | none => none
-        | some r' => some (r ++ r')
-    else some []
+/-- The values `n` takes in `for n := from; cond(n); n += incr` (Int64 arithmetic), at most `k`
+    of them. -/
+def seqVals (sp : SeqParams) : Nat → Int → List Int
+  | 0, _ => []
+  | k + 1, n => if seqCond sp n then n :: seqVals sp k (wrap64 (n + sp.incr)) else []
 
 /-- `for _, elem := range br.Elems { … expand(&next) … }` with `budget` yields left. -/
 def altLoop (f : Nat → Word → Option (List Word)) (rest : List Part) :
@@ -402,7 +400,11 @@ def bracesRec : Nat → Nat → Word → Option (List Word)
         if seq then
           match seqParams elems with
           | none => none
-          | some sp => seqLoop (bracesRec fuel) sp rest budget sp.from budget
+          | some sp =>
+            -- The loop body is the body of the alternatives loop with `next.Parts = lit :: rest`.
+            -- Every iteration yields at least one word, so at most `budget` iterations run.
+            altLoop (bracesRec fuel) rest
+              ((seqVals sp budget sp.from).map fun n => [Part.lit (fmtSeq sp n)]) budget
         else altLoop (bracesRec fuel) rest elems budget
       match r with
       | none => none
@@ -432,6 +434,103 @@ def expand (w : Word) : Except Err (List Bytes) :=
   match bracesSeq w with
   | .error e => .error e
   | .ok ws => .ok (ws.map render)
+
+/-! ## Denotation of a split word (what the expansion should be, with ideal integers) -/
+
+/-- `array_concat`-style product: every left string followed by every right string, left-major. -/
+def cross (a b : List Bytes) : List Bytes := a.flatMap fun x => b.map fun y => x ++ y
+
+/-- `k` terms of the arithmetic progression `start, start + d, …`. -/
+def arith (start d : Int) : Nat → List Int
+  | 0 => []
+  | k + 1 => start :: arith (start + d) d k
+
+/-- The ideal (unbounded-integer) sequence from `fr` towards `to` in steps of `step`:
+    `⌊|to − fr| / step⌋ + 1` terms. -/
+def idealSeq (fr to : Int) (step : Nat) : List Int :=
+  arith fr (if fr ≤ to then (step : Int) else -(step : Int)) ((to - fr).natAbs / step + 1)
+
+/-- The step a third element `inc` stands for: its absolute value, 1 for 0 (or when absent). -/
+def idealStep (inc : Int) : Nat := if inc = 0 then 1 else inc.natAbs
+
+/-- No Int64 overflow in the Go loop `for n := from; …; n += incr`: the last element of the
+    ideal sequence, `to ∓ (|to − fr| mod s)`, plus (minus) the step is still an Int64. -/
+def SeqNoOverflow (fr to : Int) (s : Nat) : Prop :=
+  if fr ≤ to then to - (((to - fr).natAbs % s : Nat) : Int) + s ≤ maxI64
+  else minI64 ≤ to + (((fr - to).natAbs % s : Nat) : Int) - s
+
+instance (fr to : Int) (s : Nat) : Decidable (SeqNoOverflow fr to s) := by
+  unfold SeqNoOverflow; infer_instance
+
+/-- The texts a sequence node stands for: the ideal progression, formatted as Go formats. -/
+def seqTexts (elems : List Word) : List Bytes :=
+  match seqParams elems with
+  | none => []
+  | some sp => (idealSeq sp.from sp.to (idealStep (seqRaw elems))).map (fmtSeq sp)
+
+def seqCount (elems : List Word) : Nat :=
+  match seqParams elems with
+  | none => 0
+  | some sp => (sp.to - sp.from).natAbs / idealStep (seqRaw elems) + 1
+
+mutual
+/-- Product over the concatenated parts of the union over the alternatives. -/
+def denotPart : Part → List Bytes
+  | .lit v => [v]
+  | .brace seq elems => if seq then seqTexts elems else denotElems elems
+def denot : List Part → List Bytes
+  | [] => [[]]
+  | p :: ps => cross (denotPart p) (denot ps)
+def denotElems : List (List Part) → List Bytes
+  | [] => []
+  | e :: es => denot e ++ denotElems es
+end
+
+mutual
+/-- Number of results: product over concatenated groups of the sum over alternatives. -/
+def countPart : Part → Nat
+  | .lit _ => 1
+  | .brace seq elems => if seq then seqCount elems else countElems elems
+def count : List Part → Nat
+  | [] => 1
+  | p :: ps => countPart p * count ps
+def countElems : List (List Part) → Nat
+  | [] => 0
+  | e :: es => count e + countElems es
+end
+
+mutual
+/-- Shape that `bracesSeqRec` relies on: a sequence node passed the validity test of
+    `SplitBraces`; a list node has at least one alternative. -/
+def wfPart : Part → Bool
+  | .lit _ => true
+  | .brace seq elems => (if seq then seqValid elems else !elems.isEmpty) && wfElems elems
+def wf : List Part → Bool
+  | [] => true
+  | p :: ps => wfPart p && wf ps
+def wfElems : List (List Part) → Bool
+  | [] => true
+  | e :: es => wf e && wfElems es
+end
+
+/-- The Go loop of this sequence node does not overflow (and `-n` on the increment does not). -/
+def seqNoOv (elems : List Word) : Bool :=
+  match seqParams elems with
+  | none => true
+  | some sp => decide (seqRaw elems ≠ minI64 ∧ SeqNoOverflow sp.from sp.to (idealStep (seqRaw elems)))
+
+mutual
+/-- No sequence node of the word overflows Int64 in the Go loop. -/
+def noOvPart : Part → Bool
+  | .lit _ => true
+  | .brace seq elems => (if seq then seqNoOv elems else true) && noOvElems elems
+def noOv : List Part → Bool
+  | [] => true
+  | p :: ps => noOvPart p && noOv ps
+def noOvElems : List (List Part) → Bool
+  | [] => true
+  | e :: es => noOv e && noOvElems es
+end
 
 /-! ## expand.FieldsSeq on a literal word -/
 
@@ -678,15 +777,10 @@ def seqTerm (amble : Bytes) : Option SeqSpec :=
             let width :=
               if !lc && (zeroPadded lhs || zeroPadded rterm) then max lhs.length rlen else 0
             some { chars := lc, «from» := lv, to := rv,
-                   step := if inc = 0 then 1 else inc.natAbs, width := width }
+                   step := idealStep inc, width := width }
       | _, _ => none
 
 def SeqSpec.count (s : SeqSpec) : Nat := (s.to - s.from).natAbs / s.step + 1
-
-/-- The ideal arithmetic sequence from `from` towards `to` in steps of `step`. -/
-def idealSeq (fr to : Int) (step : Nat) : List Int :=
-  (List.range ((to - fr).natAbs / step + 1)).map fun k =>
-    if fr ≤ to then fr + (k * step : Nat) else fr - (k * step : Nat)
 
 def SeqSpec.fmt (s : SeqSpec) (n : Int) : Bytes :=
   if s.chars then runeBytes n
@@ -694,9 +788,6 @@ def SeqSpec.fmt (s : SeqSpec) (n : Int) : Bytes :=
   else formatInt n
 
 def SeqSpec.list (s : SeqSpec) : List Bytes := (idealSeq s.from s.to s.step).map s.fmt
-
-/-- `array_concat`: every left string followed by every right string, left-major. -/
-def cross (a b : List Bytes) : List Bytes := a.flatMap fun x => b.map fun y => x ++ y
 
 /-- `brace_expand`. -/
 def bashRec : Nat → Bytes → List Bytes
